@@ -402,6 +402,20 @@ fn judge(tag: &str, s: &Setup, k: usize, table: &[Entry], log: &BtLog, summary: 
     if summary.id.as_str() != format!("bt{k}") {
         return Err((format!("{tag}:summary-id"), format!("summary {k} carries id {}", summary.id)));
     }
+    judge_consumption(tag, s, k, log)?;
+    let fin = log.last.as_ref().expect("checked by judge_consumption");
+    let mut got_fills = fin.recorder.fills.clone();
+    let mut want_fills = exp.fills.clone();
+    got_fills.sort();
+    want_fills.sort();
+    if got_fills != want_fills {
+        return Err((format!("{tag}:fills"), format!("backtest {k}: fills {got_fills:?}, its own table implies {want_fills:?}")));
+    }
+    judge_rest(tag, s, k, &exp, fin, summary)
+}
+
+/// Every item of the dataset reached the engine exactly once and in order.
+fn judge_consumption(tag: &str, s: &Setup, k: usize, log: &BtLog) -> Result<(), (String, String)> {
     let Some(fin) = &log.last else {
         return Err((format!("{tag}:engine-saw-nothing"), format!("backtest {k}: the strategy was never asked for orders")));
     };
@@ -412,13 +426,10 @@ fn judge(tag: &str, s: &Setup, k: usize, table: &[Entry], log: &BtLog, summary: 
     if log.disconnects != s.reconnects {
         return Err((format!("{tag}:reconnect-notices"), format!("backtest {k}: {} reconnect notices seen, dataset has {}", log.disconnects, s.reconnects)));
     }
-    let mut got_fills = fin.recorder.fills.clone();
-    let mut want_fills = exp.fills.clone();
-    got_fills.sort();
-    want_fills.sort();
-    if got_fills != want_fills {
-        return Err((format!("{tag}:fills"), format!("backtest {k}: fills {got_fills:?}, its own table implies {want_fills:?}")));
-    }
+    Ok(())
+}
+
+fn judge_rest(tag: &str, s: &Setup, k: usize, exp: &Expected, fin: &Final, summary: &BacktestSummary<Daily>) -> Result<(), (String, String)> {
     // summary computed from that engine alone
     for (i, a) in s.indexed.assets().iter().enumerate() {
         let key = ExchangeAsset { exchange: a.value.exchange, asset: a.value.asset.name_internal.clone() };
@@ -624,11 +635,88 @@ impl Check for BacktestsThreads {
     }
 }
 
+
+/// The same batch of backtests over the crate's own `MarketDataInMemory` (no gap between events, so
+/// the whole dataset is queued in front of the engine at once). Orders placed against a feed that
+/// runs ahead of the execution responses may resolve after the backtest ends, so only the
+/// timing-free half of the property is judged here: every backtest's engine saw every market item
+/// and reconnect notice of the dataset exactly once, in order.
+pub struct BacktestsInMemory;
+
+impl Check for BacktestsInMemory {
+    type Case = BtCase;
+    const NAME: &'static str = "backtests_in_memory";
+
+    fn strategy(tier: Tier) -> BoxedStrategy<BtCase> {
+        let big = if tier == Tier::Quick { 700 } else { 2500 };
+        prop_oneof![2 => case_strategy(40, 8), 2 => case_strategy(big, 5)].boxed()
+    }
+
+    fn eval(case: &BtCase) -> CaseReport {
+        let mut rep = CaseReport::new();
+        macro_rules! bad {
+            ($sig:expr, $($fmt:tt)+) => {{ rep.fail($sig, format!($($fmt)+)); return rep; }};
+        }
+        let s = setup(case);
+        if s.trades.is_empty() || !matches!(s.dataset[0], MarketStreamEvent::Item(_)) {
+            return rep;
+        }
+        let n_inst = s.indexed.instruments().len();
+        let tables: Vec<Vec<Entry>> = case.tables.iter().map(|t| normalise(t, s.trades.len(), n_inst)).collect();
+        let constant = Arc::new(BacktestArgsConstant {
+            instruments: s.indexed.clone(),
+            executions: s.executions.clone(),
+            market_data: MarketDataInMemory::new(Arc::new(s.dataset.clone())),
+            summary_interval: Daily,
+            engine_state: s.state.clone(),
+        });
+        let fills_total = Arc::new(AtomicUsize::new(0));
+        let rt = || tokio::runtime::Builder::new_current_thread().enable_time().start_paused(true).build().expect("runtime");
+        let (args, logs): (Vec<_>, Vec<_>) = tables.iter().enumerate().map(|(k, t)| dynamic_args(k, t.clone(), &fills_total)).unzip();
+        let multi = match rt().block_on(run_backtests(Arc::clone(&constant), args)) {
+            Ok(m) => m,
+            Err(e) => bad!("run-backtests-failed", "run_backtests failed: {e}"),
+        };
+        if multi.num_backtests != tables.len() || multi.summaries.len() != tables.len() {
+            bad!("summary-count", "{} summaries for {} backtests", multi.summaries.len(), tables.len());
+        }
+        for k in 0..tables.len() {
+            let log = logs[k].lock().unwrap();
+            if let Err((sig, msg)) = judge_consumption("in-memory-concurrent", &s, k, &log) {
+                bad!(sig, "{msg}");
+            }
+            if multi.summaries[k].id.as_str() != format!("bt{k}") {
+                bad!("in-memory-concurrent:summary-id", "summary {k} carries id {}", multi.summaries[k].id);
+            }
+        }
+        // and one of them alone, a second time over the same shared data
+        let (args, log) = dynamic_args(0, tables[0].clone(), &fills_total);
+        if let Err(e) = rt().block_on(backtest(Arc::clone(&constant), args)) {
+            bad!("backtest-failed", "backtest 0 alone failed: {e}");
+        }
+        if let Err((sig, msg)) = judge_consumption("in-memory-alone", &s, 0, &log.lock().unwrap()) {
+            bad!(sig, "{msg}");
+        }
+        rep.class_if(tables.len() >= 2, "two_or_more_concurrent");
+        rep.class_if(s.dataset.len() > 128, "dataset_over_128");
+        rep.class_if(s.dataset.len() > 512, "dataset_over_512");
+        rep.class_if(s.reconnects > 0, "reconnect_notice_in_dataset");
+        rep.nontrivial = tables.len() >= 2 && s.dataset.len() >= 20;
+        rep
+    }
+}
+
 // ---------------------------------------------------------------------------------------------
 
 #[derive(Debug, Clone, Serialize, Deserialize)]
 pub struct MemCase {
     pub events: Vec<EvGen>,
+    /// number of streams taken from the one dataset and polled in an interleaved fashion
+    #[serde(default)]
+    pub n_streams: u8,
+    /// which stream yields next (selector), until exhausted; the rest is drained in stream order
+    #[serde(default)]
+    pub schedule: Vec<u8>,
 }
 
 pub struct InMemoryData;
@@ -638,8 +726,8 @@ impl Check for InMemoryData {
     const NAME: &'static str = "in_memory_data";
 
     fn strategy(_tier: Tier) -> BoxedStrategy<MemCase> {
-        prop::collection::vec((0u8..3, 1u16..2000, prop::bool::weighted(0.2)), 1..120)
-            .prop_map(|ev| MemCase { events: ev.into_iter().map(|(inst, price_q, reconnecting)| EvGen { inst, price_q, reconnecting }).collect() })
+        (prop::collection::vec((0u8..3, 1u16..2000, prop::bool::weighted(0.2)), 1..120), 1u8..=4, prop::collection::vec(any::<u8>(), 0..200))
+            .prop_map(|(ev, n_streams, schedule)| MemCase { events: ev.into_iter().map(|(inst, price_q, reconnecting)| EvGen { inst, price_q, reconnecting }).collect(), n_streams, schedule })
             .boxed()
     }
 
@@ -670,14 +758,44 @@ impl Check for InMemoryData {
                 return rep;
             }
         }
+        // several consumers of the one shared dataset (and of a clone of it), advanced in a generated
+        // interleaving: each must be handed the whole dataset, in order
+        let n_streams = case.n_streams.clamp(1, 4) as usize;
+        let copy = data.clone();
+        let mut streams: Vec<_> = (0..n_streams)
+            .map(|i| Box::pin(futures::executor::block_on(if i % 2 == 0 { data.stream() } else { copy.stream() }).expect("stream")))
+            .collect();
+        let mut got: Vec<Vec<MarketStreamEvent<InstrumentIndex, DataKind>>> = vec![Vec::new(); n_streams];
+        let mut switches = 0usize;
+        let mut prev = usize::MAX;
+        for sel in &case.schedule {
+            let i = *sel as usize % n_streams;
+            if let Some(ev) = futures::executor::block_on(streams[i].next()) {
+                got[i].push(ev);
+                if prev != i {
+                    switches += 1;
+                }
+                prev = i;
+            }
+        }
+        for (i, st) in streams.iter_mut().enumerate() {
+            while let Some(ev) = futures::executor::block_on(st.next()) {
+                got[i].push(ev);
+            }
+            if got[i] != events {
+                rep.fail("interleaved-streams", format!("stream {i} of {n_streams} over one dataset, polled in the order {:?}: yielded {} events, dataset has {}; first difference at {:?}", case.schedule, got[i].len(), events.len(), got[i].iter().zip(&events).position(|(a, b)| a != b)));
+                return rep;
+            }
+        }
         rep.class_if(matches!(events[0], MarketStreamEvent::Reconnecting(_)), "starts_with_reconnect_notice");
-        rep.nontrivial = events.len() >= 5;
+        rep.class_if(n_streams >= 2 && switches >= 3, "interleaved_consumers");
+        rep.nontrivial = events.len() >= 5 && n_streams >= 2 && switches >= 3;
         rep
     }
 }
 
 pub fn run(ctx: &mut Ctx) {
-    ctx.rule = "backtests_paused: datasets of 1..80|300 market items (public trades over 1..3 instruments on 1..2 mock exchanges, unique increasing times, 5% reconnect notices) served with a virtual gap of 2 x latency + 5 ms; 1..12|24 concurrent backtests, each strategy a table (market-item ordinal -> market order) firing once per ordinal and never on the last two ordinals; mock latency 0..49 ms, fee in {0, 0.1%, 1%}; tokio paused current-thread runtime; every backtest is judged against its own table (market items seen = dataset in order, fills, final balances/positions, summary) and the first six are re-run alone and compared. backtests_threads: same through multi-thread runtimes with 1/2/4/8 workers, the dataset's last item gated on all expected fills (20 s watchdog => skipped, 60 s => inconclusive). non-trivial = >= 4 concurrent backtests with >= 4 different tables, every backtest has >= 1 fill, dataset >= 20 items; distinct by hash of the case. in_memory_data: MarketDataInMemory stream()/time_first_event on generated event lists.".into();
+    ctx.rule = "backtests_paused: datasets of 1..80|300 market items (public trades over 1..3 instruments on 1..2 mock exchanges, unique increasing times, 5% reconnect notices) served with a virtual gap of 2 x latency + 5 ms; 1..12|24 concurrent backtests, each strategy a table (market-item ordinal -> market order) firing once per ordinal and never on the last two ordinals; mock latency 0..49 ms, fee in {0, 0.1%, 1%}; tokio paused current-thread runtime; every backtest is judged against its own table (market items seen = dataset in order, fills, final balances/positions, summary) and the first six are re-run alone and compared. backtests_threads: same through multi-thread runtimes with 1/2/4/8 workers, the dataset's last item gated on all expected fills (20 s watchdog => skipped, 60 s => inconclusive). non-trivial = >= 4 concurrent backtests with >= 4 different tables, every backtest has >= 1 fill, dataset >= 20 items; distinct by hash of the case. in_memory_data: MarketDataInMemory stream()/time_first_event on generated event lists; 1..4 streams taken from the one dataset (and a clone) polled in a generated interleaving must each yield the whole dataset (non-trivial = >= 2 streams, >= 3 switches). backtests_in_memory: 1..8 concurrent backtests over the crate's MarketDataInMemory (datasets 1..40 or 1..700|2500 items, zero gap, paused current-thread runtime), judged on consumption only: each engine saw every market item and reconnect notice once, in order; then one backtest alone over the same shared data.".into();
     ctx.assumptions = vec![
         "strategies decide from the number of market items seen only, once per ordinal (decisions independent of the timing of execution responses), and place nothing on the last two ordinals".into(),
         "timestamps are set aside (the historical clock mixes in wall-clock time)".into(),
@@ -687,8 +805,10 @@ pub fn run(ctx: &mut Ctx) {
     ctx.run_regressions::<BacktestsPaused>();
     ctx.run_regressions::<BacktestsThreads>();
     ctx.run_regressions::<InMemoryData>();
+    ctx.run_regressions::<BacktestsInMemory>();
     ctx.run::<InMemoryData>(ctx.tier.pick(5_000, 50_000));
     ctx.run::<BacktestsPaused>(ctx.tier.pick(6_000, 100_000));
+    ctx.run::<BacktestsInMemory>(ctx.tier.pick(1_500, 20_000));
     // real threads inside: run the cases of this check one at a time
     let saved = ctx.threads;
     ctx.threads = 1;
@@ -697,5 +817,5 @@ pub fn run(ctx: &mut Ctx) {
 }
 
 pub fn replay(ctx: &mut Ctx, doc: &Value) -> bool {
-    ctx.replay::<BacktestsPaused>(doc) || ctx.replay::<BacktestsThreads>(doc) || ctx.replay::<InMemoryData>(doc)
+    ctx.replay::<BacktestsPaused>(doc) || ctx.replay::<BacktestsThreads>(doc) || ctx.replay::<InMemoryData>(doc) || ctx.replay::<BacktestsInMemory>(doc)
 }
